@@ -39,7 +39,7 @@ def at_gate(inst, st, a):
         return (a, inc, "Stopped", 0)
     if pc == "drain" and e["j"] <= len(e["batch"]) and e["batch"][e["j"] - 1]["t"] == "user":
         return (a, inc, "user", e["batch"][e["j"] - 1]["id"])
-    if pc == "recover" and not (inst.fixD12 and st["restarts"][a] == inst.actors[a]["maxRestarts"]):
+    if pc == "recover" and not (inst.fixD12 and e["pv"] == "plain" and st["restarts"][a] == inst.actors[a]["maxRestarts"]):
         return (a, inc, "Stopped", 0)
     return None
 
@@ -92,8 +92,8 @@ def script_of(inst, states, acts):
             else:
                 ent = dst["log"][-1]
                 st = {"op": "grant", "a": ent["a"], "inc": ent["inc"], "kind": ent["kind"], "id": ent["id"]}
-                if len(args) > 1 and args[1] is True:
-                    st["crash"] = True
+                if len(args) > 1 and args[1] in ("plain", "internal"):
+                    st["crash"] = args[1]
                 steps.append(st)
     if steps:
         steps[-1].update(expectation(inst, states[-1]))
